@@ -290,6 +290,9 @@ func c09Reach(c *core.Case, ms *mesh, push bool) {
 				if rte != nil {
 					got = rte.DstIP
 				}
+				for _, se := range ms.vn.SendErrs {
+					c.Note("link writer refused: %s", se)
+				}
 				c.Fatalf("after the mesh drained, n%d has no exact route to n%d (distance %d; lookup gave %v, isDestination=%v) in %s", i, j, ms.topo.dist(i, j), got, isDst, ms.topo)
 			}
 			c09Walk(c, ms, i, j, rte)
